@@ -105,7 +105,7 @@ inductive Label where
   | runCall | run | add | top | deliver | tokenGiveUp | expire | exitLoop
   | advance (t : Nat)
   | close | closeRet | cancel | consume | senderGiveUp | runRet
-  deriving Repr, DecidableEq, BEq, Hashable
+  deriving Repr, DecidableEq
 
 /-! ### the handlers -/
 
